@@ -95,6 +95,10 @@ func c08Init() {
 			"@@\nvar f identifier\n@@\n-func f(a, b int, rest ...string) (n int, err error) {\n+func f(ctx Ctx, a, b int, rest ...string) (n int, err error) {\n   ...\n }\n",
 			"@@\nvar x expression\n@@\n-go func(a [3]int, m map[string]func(...int) []byte) { target(x) }(...)\n+go run(x)\n",
 			"@@\n@@\n-type Tgt interface {\n-  M(...) (..., error)\n-  ~int | ~[]byte\n-}\n+type Tgt any\n",
+			// several import lines in one change, plain and named by metavariables in either order, on files that
+			// import all of the paths
+			"@@\nvar errors identifier\nvar x expression\n@@\n import \"fmt\"\n import errors \"errors\"\n\n-errors.New(fmt.Sprintf(x))\n+fmt.Errorf(x)\n",
+			"@@\nvar a, b identifier\nvar x expression\n@@\n-import a \"io/ioutil\"\n import \"os\"\n import b \"fmt\"\n+import \"io\"\n\n-a.ReadAll(x)\n+io.ReadAll(x)\n",
 			// elisions in lists that go/ast requires to be non-empty: the rewrite can leave them empty
 			"@@\nvar x identifier\n@@\n-x, ... = foo()\n+... = foo()\n",
 			"@@\nvar x expression\n@@\n-a, b = ..., x\n+a, b = ...\n",
@@ -136,6 +140,7 @@ func c08Init() {
 			licence+"// Package p does things.\npackage p\n\nimport (\n\t\"fmt\"\n\t\"io/ioutil\"\n\t\"os\"\n\tfoo \"example.com/old/foo\"\n)\n\n// Load reads.\nfunc Load(n string) {\n\tb, err := ioutil.ReadFile(n)\n\tfmt.Println(b, err, os.Args, foo.First(1), foo.Client{})\n}\n",
 			licence+"package p\n\n// Load reads.\nfunc Load(n string) {\n\tlegacy(1)\n\tx()\n\tb, err := ioutil.ReadFile(n)\n}\n",
 		)
+		c08Targets = append(c08Targets, "package p\n\nimport (\n\t\"errors\"\n\t\"fmt\"\n\t\"io/ioutil\"\n\t\"os\"\n)\n\nfunc f(r io.Reader) error {\n\tb, _ := ioutil.ReadAll(r)\n\tuse(b, os.Args)\n\treturn errors.New(fmt.Sprintf(\"x\"))\n}\n")
 		for s := int64(1); s <= 6; s++ {
 			gg := gen.NewG(rand.New(rand.NewSource(s)))
 			gg.Comment = s%2 == 0
